@@ -5,7 +5,7 @@
    "top-down history" premise: whatever was built before, a session of requires that returns yields the from-scratch result. *)
 From Coq Require Import List NArith ZArith Bool Lia.
 From PieV Require Import Model.Dag Model.Build Proofs.StoreInv Proofs.History Proofs.ExecInv Proofs.ExecSession Proofs.Cert Proofs.Stable
-  Proofs.NoBug4 Proofs.Sim Proofs.NoAbort Proofs.NoBug4All Proofs.NoReentry Proofs.NoBugAll Proofs.CertAll Proofs.NoAbortAll.
+  Proofs.NoBug4 Proofs.Sim Proofs.NoAbort Proofs.Valid Proofs.Idem Proofs.NoBug4All Proofs.NoReentry Proofs.NoBugAll Proofs.CertAll Proofs.NoAbortAll.
 Import ListNotations.
 Open Scope N_scope.
 
@@ -103,5 +103,37 @@ Proof.
   destruct (session_returns gen wck ord RC OC P sf HS HWF HWO always fuel0 ops (new_session (fresh_of w)) RB Jf Qf) as [DB _].
   split; [exact DA|]. split; [exact DB|].
   apply (incremental_equals_scratch_any_history gen wck RC OC P sf always HS HWF HC HW HOC fuel fuel0 h ops (roots_td ord OC always fuel ops RA) DA DB).
+Qed.
+(* C02, idempotence, every history: with reflexive checkers, a session of requires followed by the same session again executes nothing *)
+Hypothesis HRefl : forall c env r v, rc_check (RC c) env r v (sf c r v) = Consistent.
+Hypothesis HReflO : forall c o, oc_check (OC c) o (oc_stamp (OC c) o) = true.
+Theorem second_session_executes_nothing_any_history fuel h ops : roots_below ord fuel ops ->
+  let w := snd (run_history RC OC P always fuel init_world h) in
+  let r1 := run_session RC OC P always fuel (new_session w) ops in
+  let r2 := run_session RC OC P always fuel (new_session (snd r1)) ops in
+  fst r2 = fst r1 /\ execs (rev (trace (snd r2))) = [] /\ forall r, get_content (snd r2) r = get_content (snd r1) r.
+Proof.
+  intros RB w r1 r2. destruct (any_history_JK gen wck RC OC P sf always HS HWF fuel h) as [Jw _]. fold w in Jw.
+  destruct (run_history_AQ gen wck ord RC OC P sf HS HWF HWO always fuel h init_world) as [_ Qw]; [split; [apply L_init|intros x d X; discriminate]|apply K_init|apply Q_init|]. fold w in Qw.
+  assert (V0 : VC RC OC (new_session w)) by (intros x Xx; discriminate).
+  destruct (session_V gen wck ord RC OC P sf HS HWF HWO HRefl HReflO always fuel ops (new_session w) RB Jw
+              ltac:(apply (Q_same gen ord w); [reflexivity|exact Qw]) V0) as [V1 [J1 [Q1 [_ [_ [outs_ [E1 [L1 R1]]]]]]]].
+  fold r1 in V1, J1, Q1, E1, R1.
+  assert (HX : forall t, In t (roots ops) -> In t (consistent (snd r1))).
+  { intros t It. destruct (In_nth_error _ _ It) as [i Ei].
+    assert (Li : (i < length outs_)%nat) by (rewrite L1; apply nth_error_Some; congruence).
+    destruct (nth_error outs_ i) as [o|] eqn:Eo; [|apply nth_error_None in Eo; lia].
+    apply DagLib.memN_In. apply (R1 i t o Ei Eo). }
+  destruct (idem_session gen ord RC OC P always (consistent (snd r1)) fuel ops (new_session (snd r1)) (VC_ValidX RC OC (snd r1) J1 V1)
+              (proj1 J1) ltac:(apply (Q_same gen ord (snd r1)); [reflexivity|exact Q1]) RB HX) as [Qt E2].
+  fold r2 in Qt, E2.
+  split; [|split].
+  - rewrite E2, E1. clear - L1 R1. revert outs_ L1 R1. generalize (roots ops). intros l. induction l as [|t tl IH]; intros outs_ L1 R1.
+    + destruct outs_; [reflexivity|discriminate].
+    + destruct outs_ as [|o outs_]; [discriminate|]. cbn [map]. f_equal.
+      * destruct (R1 0%nat t o eq_refl eq_refl) as [_ O]. change (get_task_output (new_session (snd r1)) t) with (get_task_output (snd r1) t). rewrite O. reflexivity.
+      * apply IH; [cbn in L1; lia|]. intros i t0 o0 A B. apply (R1 (S i) t0 o0 A B).
+  - destruct (qt_seg _ _ Qt) as [seg [T Ex]]. rewrite T. cbn [new_session trace]. rewrite app_nil_r, rev_involutive. exact Ex.
+  - intros r. rewrite (qt_content _ _ Qt). reflexivity.
 Qed.
 End ST.
